@@ -117,6 +117,11 @@ func (t *connectTransaction) Auth(snPkt *snPkts1.Auth) error {
 			t.Fail(err)
 			return err
 		}
+		if !isValidMqttString(user) {
+			err := errors.New("invalid user name in PLAIN auth data")
+			t.Fail(err)
+			return err
+		}
 		t.mqConnect.UsernameFlag = true
 		t.mqConnect.Username = user
 		t.mqConnect.PasswordFlag = true
@@ -140,6 +145,24 @@ func (t *connectTransaction) WillTopic(snWillTopic *snPkts1.WillTopic) error {
 		return nil
 	}
 
+	// An empty WILLTOPIC packet means "no will".
+	// See MQTT-SN specification v. 1.2, chapter 5.4.7 WILLTOPIC.
+	if snWillTopic.WillTopic == "" {
+		t.mqConnect.WillFlag = false
+		// Continue with WILLMSGREQ, the will message will be ignored.
+		t.state = connectAwaitingWillMsg
+		return t.handler.snSend(snPkts1.NewWillMsgReq())
+	}
+
+	if snWillTopic.QOS > 2 || !isValidMqttTopicName(snWillTopic.WillTopic) {
+		if err := t.SendConnack(snPkts1.RC_NOT_SUPPORTED); err != nil {
+			return err
+		}
+		err := fmt.Errorf("invalid will QoS or topic: %v", snWillTopic)
+		t.Fail(err)
+		return err
+	}
+
 	t.mqConnect.WillQos = snWillTopic.QOS
 	t.mqConnect.WillRetain = snWillTopic.Retain
 	t.mqConnect.WillTopic = snWillTopic.WillTopic
@@ -155,7 +178,9 @@ func (t *connectTransaction) WillMsg(snWillMsg *snPkts1.WillMsg) error {
 		return nil
 	}
 
-	t.mqConnect.WillMessage = snWillMsg.WillMsg
+	if t.mqConnect.WillFlag {
+		t.mqConnect.WillMessage = snWillMsg.WillMsg
+	}
 
 	// All information successfully gathered - send MQTT connect.
 	t.state = connectAwaitingConnack
